@@ -130,6 +130,31 @@ class TierHistory:
             self.obs.after(op, recv, args, res, exc, self.pool)
         return res
 
+    def _probe(self, t):
+        """queries and copy-returning operations on a tier right before / after an in-place edit: a cached view that
+        survives a mutation shows up in whichever monitor judges the call"""
+        r = self.rng
+        isint = t.tierType == "IntervalTier"
+        a, b = sorted((self.time(t), self.time(t)))
+        if a == b:
+            b = a + (gen.UNIT if self.grid else 0.25)
+        self._run("crop", t, t.crop, (a, b, r.choice(("strict", "lax", "truncated")), r.random() < 0.5))
+        self._run("timestamps", t, lambda: t.timestamps, ())
+        self._run("find", t, t.find, (r.choice(["a", "b"]), False, False))
+        other = self._pick(t.tierType)
+        if other is not None and other is not t:
+            if isint:
+                self._run("intersection", t, t.intersection, (other,))
+                self._run("mergeLabels", other, other.mergeLabels, (t,))
+                self._run("difference", t, t.difference, (other,))
+            self._run("union", other, other.union, (t,))
+        anyother = self._pick()
+        if anyother is not None and len(t.entries):
+            d = r.choice([gen.UNIT / 2, gen.UNIT]) if self.grid else r.choice([0.005, 0.01, 0.125])
+            self._run("dejitter", anyother, anyother.dejitter, (t, d))
+        if isint and len(t.entries):
+            self._run("getNonEntries", t, t.getNonEntries, ())
+
     def _pick(self, kind=None):
         cands = [t for t in self.pool if kind is None or t.tierType == kind]
         return self.rng.choice(cands) if cands else None
@@ -189,14 +214,24 @@ class TierHistory:
                 entry = r.choice([self.Point(*raw), raw, list(raw)])
             cm = r.choice(("replace", "merge", "error"))
             rm = r.choice(("silence", "warning", "warning", "error")) if self.hostile else r.choice(("silence", "warning"))
+            probe = r.random() < 0.5
+            if probe:
+                self._probe(t)
             self._run(op, t, t.insertEntry, (entry, cm, rm))
+            if probe:
+                self._probe(t)
             res = None
         elif op == "deleteEntry":
             if len(t.entries) and r.random() < 0.85:
                 entry = r.choice(t.entries)
             else:
                 entry = self.Interval(self.time(t), self.time(t) + 7.0, "zz") if isint else self.Point(self.time(t) + 7.0, "zz")
+            probe = r.random() < 0.6
+            if probe:
+                self._probe(t)
             self._run(op, t, t.deleteEntry, (entry,))
+            if probe:
+                self._probe(t)
             res = None
         elif op in ("union", "appendTier", "dejitter"):
             other = self._pick(t.tierType if (op != "dejitter" and r.random() < 0.9) else None) or t
